@@ -49,12 +49,14 @@ class AttributesConverter(object):
         out.remote_jid = message_key.remote_jid
         out.from_me = message_key.from_me
         out.id = message_key.id
-        out.participant = message_key.participant
+        if message_key.participant is not None:
+            # only messages of a group have one
+            out.participant = message_key.participant
         return out
 
     def proto_to_message_key(self, proto):
         return MessageKeyAttributes(
-            proto.remote_jid, proto.from_me, proto.id, proto.participant
+            proto.remote_jid, proto.from_me, proto.id, proto.participant if proto.HasField("participant") else None
         )
 
     def protocol_to_proto(self, protocol):
